@@ -45,6 +45,7 @@ class _Recorder:
         self.seed = seed
         self.calls = []
         self._probe = Report(prop, tier, seed)
+        self._probe.findings = list(self._probe.findings) + _notes_findings(self._probe)
 
     def add(self, **kw):
         self.calls.append(("add", kw))
@@ -96,8 +97,26 @@ def _worker(args):
         return idx, rec.calls, [], traceback.format_exc()
 
 
+def _notes_findings(report):
+    """findings of notes/C09_findings.json that /verif/known_findings.json does not list yet (by id, whatever
+    their status there): lets the check run before the main agent has merged the notes"""
+    import json
+    from ..report import ROOT, load_findings
+    path = os.path.join(ROOT, "notes", "C09_findings.json")
+    if not os.path.exists(path):
+        return []
+    have = {f.get("id") for f in load_findings()}
+    with open(path) as fh:
+        return [f for f in json.load(fh) if f.get("id") not in have and f.get("property") == report.prop]
+
+
 def run(prop, report, tier, seed):
     cfgs = fam.configs(tier)
+    only = [k for k in os.environ.get("VERIF_C09_KINDS", "").split(",") if k]
+    if only:      # development aid (e.g. mutation tests of one bridge); the evidence says so
+        cfgs = [c for c in cfgs if c[0]["kind"] in only]
+        report.note("restricted to DUT kinds %s by VERIF_C09_KINDS" % ",".join(only))
+    report.findings = list(report.findings) + _notes_findings(report)
     report.assume("masters and partners are protocol-legal: every offer is held with its payload until accepted, AXI(-Lite) "
                   "address and data in any order, up to k requests per direction outstanding, responses accepted at any "
                   "time; AXI bursts of 1-4 full-width beats (FIXED/INCR/WRAP); AHB single transfers only (AHB2Wishbone has "
@@ -112,11 +131,7 @@ def run(prop, report, tier, seed):
     # biggest first, results merged in batch order
     order = sorted(jobs, key=lambda j: -sum(c[0].get("cost", 1) for c in j[6]))
     results = {}
-    ctx = mp.get_context("fork")
     nproc = int(os.environ.get("VERIF_C09_PROCS", NPROC))
-    with ctx.Pool(nproc, maxtasksperchild=1) as pool:
-        # the workers create their own (non-daemonic-safe) stepper pools: run them as plain processes
-        pass
     procs = _run_jobs(order, nproc)
     for idx, calls, stats, err in procs:
         results[idx] = (calls, stats, err)
@@ -130,7 +145,8 @@ def run(prop, report, tier, seed):
             elif name == "sample":
                 report.sample(a[0], cap=6)
             else:
-                report.violation(*a)
+                report.violation(*a)           # confirmed by linear replay + T-mode validation in the worker
+                report.add(traces_validated_against_impl=1)
         all_stats += stats
         if err:
             errors.append("batch %d (%s): %s" % (i, ", ".join(describe(c[0]) for c in bl[i][2]), err))
@@ -142,7 +158,8 @@ def run(prop, report, tier, seed):
 
 
 def _run_jobs(jobs, nproc):
-    """run _worker(job) in at most nproc plain (non-daemonic) processes; -> list of results"""
+    """run _worker(job) in at most nproc plain (non-daemonic: they start their own stepper pools)
+    processes; -> list of results"""
     ctx = mp.get_context("fork")
     pending = list(jobs)
     running = []
@@ -157,7 +174,14 @@ def _run_jobs(jobs, nproc):
             p = ctx.Process(target=target, args=(job, q))
             p.start()
             running.append((p, job))
-        res = q.get()
+        try:
+            res = q.get(timeout=5)
+        except Exception:
+            for p, job in list(running):
+                if not p.is_alive() and p.exitcode not in (0, None):
+                    running.remove((p, job))
+                    out.append((job[3], [], [], "worker process died with exit code %s" % p.exitcode))
+            continue
         out.append(res)
         for p, job in list(running):
             if job[3] == res[0]:
